@@ -184,6 +184,7 @@ type Hooks struct {
 // CalleeSpec: how to treat a static callee.
 type CalleeSpec struct {
 	Inline bool   // execute the body in place
+	Unsupported string // non-empty: the callee cannot be handled (reason); the path is reported as outside the verified subset
 	Pure   string // non-empty: uninterpreted function symbol for its results
 	Event  string // non-empty: record as an event with this name (fresh results)
 	// MayPanic: fork a panic path
